@@ -454,6 +454,25 @@ func genC12(t *rapid.T) c12Case {
 			bulk = true
 			push("many-foods", []vRec{{Head: vFmtDay(d, ""), HL: vGenHeadLayout(rt, lo, "hl"), Lines: lines}}, []int{d})
 		},
+		"same-menu": func(rt *rapid.T) {
+			// the same entries as the day before (names, quantities, order), under the next date
+			if len(allDays) == 0 || len(allDays[len(allDays)-1].Lines) == 0 {
+				rt.Skip("no day to repeat yet")
+			}
+			src := allDays[len(allDays)-1]
+			if len(src.Lines) < 4 && rapid.Bool().Draw(rt, "lengthen") {
+				// at least four entries, like a real menu
+				for len(src.Lines) < 4 {
+					src.Lines = append(append([]vLine{}, src.Lines...), src.Lines[0])
+				}
+				d0 := nextDay
+				nextDay++
+				push("same-menu-first", []vRec{{Head: vFmtDay(d0, ""), HL: src.HL, Lines: src.Lines}}, []int{d0})
+			}
+			d := nextDay
+			nextDay++
+			push("same-menu", []vRec{{Head: vFmtDay(d, ""), HL: src.HL, Lines: append([]vLine{}, src.Lines...)}}, []int{d})
+		},
 		"big-then-small": func(rt *rapid.T) {
 			// a food whose running total is huge (first time), and later days on which a small amount of it is followed
 			// directly by another food: what is lost in the huge sum must not turn up anywhere else
